@@ -3,7 +3,7 @@
 //
 // Registers 0..3 are plain ParameterLists, registers 4..5 are the lists owned by two
 // AbstractParametrizable objects (namespace prefix + fireParameterChanged recorder).
-// Values and bounds travel as integers meaning quarters (q/4), constraints as
+// Values and bounds travel as integers meaning quarters (q/4; `q'` = q/4 + 2^-30), constraints as
 // `c:<inclLo>:<lo>:<hi>:<inclHi>` (`-inf`/`+inf` for infinite bounds) or `-`.
 // Answer: `<result> ; <fired list or -> ; <reg0> ; ... ; <reg5>` where a list is printed as
 // `name,value,constraint,obj` entries; `obj` is a stable number given to each Parameter
@@ -74,15 +74,20 @@ struct World {
   }
 };
 
+static const double NUDGE = 1.0 / 1073741824.0;   // 2^-30
 static std::string quarters(double v) {
   if (std::isinf(v)) return v < 0 ? "-inf" : "+inf";
   double x = v * 4; long long n = std::llround(x);
-  if (static_cast<double>(n) != x) return "x" + doubleToHex(v);
-  return std::to_string(n);
+  if (static_cast<double>(n) == x) return std::to_string(n);
+  // a nudged grid value n/4 + 2^-30 is printed as n'
+  double y = (v - NUDGE) * 4; long long m = std::llround(y);
+  if (static_cast<double>(m) == y) return std::to_string(m) + "'";
+  return "x" + doubleToHex(v);
 }
 static double fromQuarters(const std::string& s) {
   if (s == "-inf") return -INFINITY;
   if (s == "+inf") return INFINITY;
+  if (!s.empty() && s.back() == '\'') return static_cast<double>(toI(s.substr(0, s.size() - 1))) / 4.0 + NUDGE;
   return static_cast<double>(toI(s)) / 4.0;
 }
 static std::vector<std::string> split(const std::string& s, char sep) {
